@@ -171,3 +171,27 @@ def counts():
             n_f += len(field_rows(v, s))
             n_leaf += sum(1 for _ in leaf_positions(v, s))
     return n_seg, n_f, n_leaf
+
+
+@lru_cache(maxsize=None)
+def row_anomalies(v, seg):
+    """{field number: tag} for field rows that contradict themselves: a 'leaf' row whose datatype is complex,
+    a row of the wrong arity, a sequence row whose component names do not carry its datatype."""
+    out = {}
+    for idx, fr in field_rows(v, seg):
+        if idx is None or not fr.ok:
+            out[idx] = fr.why or 'name'
+            continue
+        dt = fr.datatype
+        if fr.kind == 'leaf':
+            if dt not in ('varies', None) and not is_base(v, dt):
+                out[idx] = 'leaf-row-with-complex-datatype-%s' % dt
+        else:
+            for cr in fr.children:
+                if not cr.ok:
+                    out[idx] = 'component-' + cr.why
+                    break
+                if not (cr.name or '').startswith(str(dt) + '_'):
+                    out[idx] = 'component-%s-under-datatype-%s' % (cr.name, dt)
+                    break
+    return out
